@@ -21,7 +21,7 @@
 //!        c14 replay <json>     ({"seed":…, "index":…} or {"files":[[module, source]…]})
 
 use roto::verif_hooks::c14::{Dump, LirItem, NodeKind, take_dump, take_lir, typecheck_only};
-use roto::{Context, FileSpec, FileTree, RotoString, Runtime, SourceFile, library};
+use roto::{Context, FileSpec, FileTree, RotoString, Runtime, SourceFile, Verdict, library};
 use rotov_harness::driver::Driver;
 use rotov_harness::{Prng, Report};
 use serde_json::{Value, json};
@@ -130,6 +130,9 @@ struct Item {
     alias: Option<bool>,
     /// a term that builds a local compound value and clones / compares it (index into `LOCAL_NAMES`; 0 none)
     local: u8,
+    /// constants: how the accessor `rd_K<n>` is written: bit 0 = as a `filtermap` (else `fn`),
+    /// bit 1 = at the start of pkg (else at its end), bit 2 = a `test t_K<n>` item reads the constant too
+    acc: u8,
     refs: Vec<Ref>,
 }
 
@@ -261,7 +264,7 @@ fn gen_ref(p: &mut Prng, to: usize, same_module: bool) -> Ref {
 }
 
 fn plain_item(is_const: bool, n: usize, module: usize) -> Item {
-    Item { is_const, n, module, uses_ctx: false, ctx_form: 0, ty: 0, alias: None, local: 0, refs: vec![] }
+    Item { is_const, n, module, uses_ctx: false, ctx_form: 0, ty: 0, alias: None, local: 0, acc: (n as u8 + module as u8) % 8, refs: vec![] }
 }
 
 fn plain_ref(to: usize) -> Ref {
@@ -380,6 +383,7 @@ fn gen_graph(seed: u64, g: u64) -> (Vec<Item>, Expect) {
             ty: if p.chance(1, 2) { 0 } else { p.below(TY_NAMES.len() as u64) as u8 },
             alias: match p.below(6) { 0 => Some(true), 1 => Some(false), _ => None },
             local: if p.chance(1, 5) { 1 + p.below(LOCAL_NAMES.len() as u64 - 1) as u8 } else { 0 },
+            acc: if p.chance(1, 2) { 0 } else { p.below(8) as u8 },
             refs: vec![],
         })
         .collect();
@@ -658,20 +662,39 @@ fn render(case: &Case) -> Files {
             bodies[m].push(format!("fn {}(d: u64) -> u64 {{ {} }}", it.name(), body));
         }
     }
-    // accessors for the constants live in pkg, after everything else
-    for it in items.iter().filter(|i| i.is_const) {
+    // accessors for the constants live in pkg, before or after everything else,
+    // as functions or filtermaps; some constants are also read by a test item
+    let mut oracle = Oracle { items, cval: vec![None; items.len()], fmemo: BTreeMap::new() };
+    let mut front: Vec<String> = vec![];
+    for (i, it) in items.iter().enumerate().filter(|(_, i)| i.is_const) {
         let mut names = vec![it.name()];
         if it.alias.is_some() {
             names.push(format!("A{}", it.n));
         }
+        let want = if matches!(case.expect, Expect::Accept) { oracle.constant(i) } else { 0 };
         for name in names {
             let path = format!("{}.{}", ABS[it.module], name);
-            bodies[0].push(format!(
-                "fn rd_{name}(d: u64) -> u64 {{ {} }}",
-                read_form(it, 0).1.replace("$P", &path)
-            ));
+            let read = read_form(it, 0).1.replace("$P", &path);
+            let mut out = vec![];
+            if it.acc & 1 == 1 {
+                // (`accept pkg.…` does not parse — `accept` followed by a path starting with the
+                // keyword `pkg` — which belongs to C09; the read is bound first)
+                out.push(format!("filtermap rd_{name}(d: u64) {{ let v: u64 = {read}; accept v }}"));
+            } else {
+                out.push(format!("fn rd_{name}(d: u64) -> u64 {{ {read} }}"));
+            }
+            if it.acc & 4 == 4 {
+                out.push(format!("test t_{name} {{ if {read} != {want} {{ reject; }} accept }}"));
+            }
+            if it.acc & 2 == 2 {
+                front.append(&mut out);
+            } else {
+                bodies[0].append(&mut out);
+            }
         }
     }
+    front.append(&mut bodies[0]);
+    bodies[0] = front;
     let files = (0..4)
         .map(|m| {
             let mut s = String::new();
@@ -717,13 +740,23 @@ fn known_structure(case: &Case) -> (BTreeMap<String, char>, BTreeSet<(String, St
             let rd = format!("pkg.rd_{}", it.name());
             kinds.insert(rd.clone(), 'f');
             edges.insert((rd, from.clone()));
+            if it.acc & 4 == 4 {
+                let t = format!("pkg.test#t_{}", it.name());
+                kinds.insert(t.clone(), 'f');
+                edges.insert((t, from.clone()));
+            }
             if it.alias.is_some() {
                 let a = format!("{}.A{}", ABS[it.module], it.n);
                 kinds.insert(a.clone(), 'c');
                 edges.insert((a.clone(), from.clone()));
                 let rd = format!("pkg.rd_A{}", it.n);
                 kinds.insert(rd.clone(), 'f');
-                edges.insert((rd, a));
+                edges.insert((rd, a.clone()));
+                if it.acc & 4 == 4 {
+                    let t = format!("pkg.test#t_A{}", it.n);
+                    kinds.insert(t.clone(), 'f');
+                    edges.insert((t, a));
+                }
             }
         }
     }
@@ -1226,6 +1259,7 @@ fn run_case(rep: &mut Report, drv: &mut Driver, seed: u64, index: u64) {
             rep.hist("local-compound", format!("{} in {}", LOCAL_NAMES[it.local as usize].0, if it.is_const { "const" } else { "fn" }));
         }
         if it.is_const {
+            rep.hist("accessor", format!("{}{}{}", if it.acc & 1 == 1 { "filtermap" } else { "fn" }, if it.acc & 2 == 2 { " first" } else { " last" }, if it.acc & 4 == 4 { " +test" } else { "" }));
             rep.hist("const-type", format!("{}{}", TY_NAMES[it.ty as usize], if it.alias.is_some() { " +alias" } else { "" }));
         }
         for r in &it.refs {
@@ -1412,9 +1446,16 @@ fn run_case(rep: &mut Report, drv: &mut Driver, seed: u64, index: u64) {
                                     names.push(format!("rd_A{}", it.n));
                                 }
                                 for name in names {
-                                    match pkg.get_function::<fn(u64) -> u64>(&name) {
-                                        Ok(f) => {
-                                            let got = f.call(&mut ctx, round);
+                                    let got = if it.acc & 1 == 1 {
+                                        pkg.get_function::<fn(u64) -> Verdict<u64, ()>>(&name).map(|f| match f.call(&mut ctx, round) {
+                                            Verdict::Accept(v) => v,
+                                            Verdict::Reject(()) => u64::MAX,
+                                        })
+                                    } else {
+                                        pkg.get_function::<fn(u64) -> u64>(&name).map(|f| f.call(&mut ctx, round))
+                                    };
+                                    match got {
+                                        Ok(got) => {
                                             if got != want {
                                                 rep.violation(
                                                     "a constant read after compile does not have the value its initialiser computes from its dependencies",
@@ -1448,6 +1489,22 @@ fn run_case(rep: &mut Report, drv: &mut Driver, seed: u64, index: u64) {
                             }
                         }
                     }
+                    // the test items see the same values
+                    let tests: Vec<_> = pkg.get_tests().collect();
+                    let ntests = items.iter().filter(|i| i.is_const && i.acc & 4 == 4).map(|i| 1 + i.alias.is_some() as usize).sum::<usize>();
+                    if tests.len() != ntests {
+                        rep.mismatch("number of test items differs from the generated one (harness)", json!({"case": input, "got": tests.len(), "want": ntests}));
+                    }
+                    for t in &tests {
+                        if t.run(&mut ctx).is_err() {
+                            rep.violation(
+                                "a test item reading a constant after compile does not see the value its initialiser computes from its dependencies",
+                                "value:test",
+                                json!({"case": input, "test": t.name()}),
+                            );
+                        }
+                    }
+                    drop(tests);
                     let after: Vec<u64> = LOG.lock().unwrap().clone();
                     if after != log {
                         rep.violation(
